@@ -663,116 +663,135 @@ func runC11(rep *engines.Report, p *pool.Pool, tier string) int {
 	type plan struct {
 		seams bool
 		bound int
+		pairs bool // also run on the systematically generated pair scenarios
 	}
-	plans := []plan{{false, 0}, {false, 1}, {false, 2}, {true, 0}, {true, 1}}
-	budget := 5 * time.Minute
+	plans := []plan{{false, 0, false}, {false, 1, false}, {false, 2, true}, {true, 0, false}, {true, 1, false}}
+	budget := 6 * time.Minute
 	if tier != "quick" {
-		plans = []plan{{false, 0}, {false, 1}, {false, 2}, {true, 0}, {true, 1}, {true, 2}, {false, 3}}
-		budget = 25 * time.Minute
+		plans = []plan{{false, 0, false}, {false, 1, false}, {false, 2, false}, {true, 0, false}, {true, 1, false}, {true, 2, true}, {false, 3, true}}
+		budget = 28 * time.Minute
 	}
 	deadline := time.Now().Add(budget)
-	p.JobTimeout = 15 * time.Minute
+	p.JobTimeout = 20 * time.Minute
+	type agg struct {
+		execs, steps, maxPoints int
+		outcomes                map[string]bool
+		capped                  bool
+	}
 	totalExec, totalSteps := 0, 0
 	per := []map[string]interface{}{}
 	allOutcomes := map[string]bool{}
 	exhaustive := true
-	for _, scn := range engines.Scenarios() {
-		for _, pl := range plans {
-			if time.Now().After(deadline) {
-				exhaustive = false
-				rep.Notes = append(rep.Notes, fmt.Sprintf("budget reached before %s seams=%v bound=%d", scn.Name, pl.seams, pl.bound))
-				continue
-			}
-			t0 := time.Now()
-			execs, steps, maxPoints := 0, 0, 0
-			outcomes := map[string]bool{}
-			harness := ""
-			capped := false
-			handle := func(jobs []interface{}, collect *[][]int) func(i int, resp *pool.Response) {
-				return func(i int, resp *pool.Response) {
-					job := jobs[i].(*engines.C11Job)
-					if resp.Err == "skipped" {
-						capped = true
-						return
-					}
-					if resp.Err != "" {
-						rep.Inconclusive++
-						capped = true
-						fmt.Fprintf(os.Stderr, "[C11] inconclusive: %s prefix %v: %s\n", scn.Name, job.Prefix, resp.Err)
-						return
-					}
-					var r engines.C11Res
-					_ = json.Unmarshal(resp.Result, &r)
-					if r.Harness != "" {
-						harness = r.Harness
-						return
-					}
-					execs += r.Execs
-					steps += r.Steps
-					if r.MaxPoints > maxPoints {
-						maxPoints = r.MaxPoints
-					}
-					if r.Capped {
-						capped = true
-					}
-					for _, o := range r.Outcomes {
-						outcomes[o] = true
-					}
-					for _, s := range r.Sample {
-						if len(per) < 3 {
-							rep.AddSample(s)
-						}
-					}
-					if collect != nil {
-						*collect = append(*collect, r.Children...)
-					}
-					for _, v := range r.Viol {
-						mj := &engines.C11Job{Scenario: job.Scenario, Seams: job.Seams, Bound: job.Bound, Prefix: v.Sched, Mode: "one"}
-						rep.Add("c11", mj, []engines.Violation{v})
-					}
-				}
-			}
-			p.Stop = func() bool { return time.Now().After(deadline) }
-			lvl := [][]int{{}}
-			for depth := 0; depth < 2 && len(lvl) > 0; depth++ {
-				jobs := []interface{}{}
-				for _, pre := range lvl {
-					jobs = append(jobs, &engines.C11Job{Scenario: scn.Name, Seams: pl.seams, Bound: pl.bound, Prefix: pre, Mode: "expand"})
-				}
-				next := [][]int{}
-				p.Map("c11", jobs, handle(jobs, &next))
-				lvl = next
-			}
-			jobs := []interface{}{}
-			for _, pre := range lvl {
-				jobs = append(jobs, &engines.C11Job{Scenario: scn.Name, Seams: pl.seams, Bound: pl.bound, Prefix: pre, Mode: "subtree"})
-			}
-			p.Map("c11", jobs, handle(jobs, nil))
-			p.Stop = nil
-			if harness != "" {
-				fmt.Fprintln(os.Stderr, "HARNESS ERROR:", scn.Name, harness)
-				return 2
-			}
-			if capped {
-				exhaustive = false
-				rep.Notes = append(rep.Notes, fmt.Sprintf("%s seams=%v bound=%d: not completed within the budget", scn.Name, pl.seams, pl.bound))
-			}
-			totalExec += execs
-			totalSteps += steps
-			for o := range outcomes {
-				allOutcomes[scn.Name+"|"+o] = true
-			}
-			per = append(per, map[string]interface{}{"scenario": scn.Name, "point_set": map[bool]string{false: "L (locks, pipes, spawn, exit)", true: "L+S (plus index-store/backend/cache seams)"}[pl.seams],
-				"preemption_bound": pl.bound, "schedules": execs, "scheduling_steps": steps, "max_points_per_execution": maxPoints, "distinct_outcomes": len(outcomes), "completed": !capped, "wall_s": time.Since(t0).Seconds()})
-			fmt.Fprintf(os.Stderr, "[C11] %s seams=%v bound=%d: schedules=%d maxpoints=%d outcomes=%d completed=%v %.1fs\n", scn.Name, pl.seams, pl.bound, execs, maxPoints, len(outcomes), !capped, time.Since(t0).Seconds())
+	for _, pl := range plans {
+		scns := engines.Scenarios()
+		if pl.pairs {
+			scns = engines.AllScenarios()
 		}
+		if time.Now().After(deadline) {
+			exhaustive = false
+			rep.Notes = append(rep.Notes, fmt.Sprintf("budget reached before plan seams=%v bound=%d", pl.seams, pl.bound))
+			continue
+		}
+		t0 := time.Now()
+		aggs := map[string]*agg{}
+		for _, sc := range scns {
+			aggs[sc.Name] = &agg{outcomes: map[string]bool{}}
+		}
+		harness := ""
+		handle := func(jobs []interface{}, collect *[]interface{}) func(i int, resp *pool.Response) {
+			return func(i int, resp *pool.Response) {
+				job := jobs[i].(*engines.C11Job)
+				a := aggs[job.Scenario]
+				if resp.Err == "skipped" {
+					a.capped = true
+					return
+				}
+				if resp.Err != "" {
+					rep.Inconclusive++
+					a.capped = true
+					fmt.Fprintf(os.Stderr, "[C11] inconclusive: %s prefix %v: %s\n", job.Scenario, job.Prefix, resp.Err)
+					return
+				}
+				var r engines.C11Res
+				_ = json.Unmarshal(resp.Result, &r)
+				if r.Harness != "" {
+					harness = job.Scenario + ": " + r.Harness
+					return
+				}
+				a.execs += r.Execs
+				a.steps += r.Steps
+				if r.MaxPoints > a.maxPoints {
+					a.maxPoints = r.MaxPoints
+				}
+				if r.Capped {
+					a.capped = true
+				}
+				for _, o := range r.Outcomes {
+					a.outcomes[o] = true
+				}
+				for _, s := range r.Sample {
+					rep.AddSample(s)
+				}
+				if collect != nil {
+					for _, c := range r.Children {
+						*collect = append(*collect, &engines.C11Job{Scenario: job.Scenario, Seams: job.Seams, Bound: job.Bound, Prefix: c})
+					}
+				}
+				for _, v := range r.Viol {
+					mj := &engines.C11Job{Scenario: job.Scenario, Seams: job.Seams, Bound: job.Bound, Prefix: v.Sched, Mode: "one"}
+					rep.Add("c11", mj, []engines.Violation{v})
+				}
+			}
+		}
+		p.Stop = func() bool { return time.Now().After(deadline) }
+		lvl := []interface{}{}
+		for _, sc := range scns {
+			lvl = append(lvl, &engines.C11Job{Scenario: sc.Name, Seams: pl.seams, Bound: pl.bound, Prefix: []int{}})
+		}
+		for depth := 0; depth < 2 && len(lvl) > 0; depth++ {
+			for _, j := range lvl {
+				j.(*engines.C11Job).Mode = "expand"
+			}
+			next := []interface{}{}
+			p.Map("c11", lvl, handle(lvl, &next))
+			lvl = next
+		}
+		for _, j := range lvl {
+			j.(*engines.C11Job).Mode = "subtree"
+		}
+		p.Map("c11", lvl, handle(lvl, nil))
+		p.Stop = nil
+		if harness != "" {
+			fmt.Fprintln(os.Stderr, "HARNESS ERROR:", harness)
+			return 2
+		}
+		planExecs, completed := 0, 0
+		for _, sc := range scns {
+			a := aggs[sc.Name]
+			if a.capped {
+				exhaustive = false
+				rep.Notes = append(rep.Notes, fmt.Sprintf("%s seams=%v bound=%d: not completed within the budget", sc.Name, pl.seams, pl.bound))
+			} else {
+				completed++
+			}
+			totalExec += a.execs
+			totalSteps += a.steps
+			planExecs += a.execs
+			for o := range a.outcomes {
+				allOutcomes[sc.Name+"|"+o] = true
+			}
+			per = append(per, map[string]interface{}{"scenario": sc.Name, "point_set": map[bool]string{false: "L", true: "L+S"}[pl.seams],
+				"preemption_bound": pl.bound, "schedules": a.execs, "scheduling_steps": a.steps, "max_points_per_execution": a.maxPoints, "distinct_outcomes": len(a.outcomes), "completed": !a.capped})
+		}
+		fmt.Fprintf(os.Stderr, "[C11] plan seams=%v bound=%d: scenarios=%d completed=%d schedules=%d %.1fs\n", pl.seams, pl.bound, len(scns), completed, planExecs, time.Since(t0).Seconds())
 	}
 	rep.Coverage["states"] = len(allOutcomes)
 	rep.Coverage["transitions"] = totalSteps
 	rep.Coverage["traces_validated_against_impl"] = totalExec
 	rep.Coverage["exhaustive"] = exhaustive
 	rep.Coverage["explorations"] = per
-	rep.Coverage["rule"] = "stateless depth-first search over schedules of 2-3 client threads (+ background Restore goroutines) on one real fs.STFS, iterative preemption bounding; scheduling points: every Mutex.Lock, pipe read/write, goroutine spawn/exit (point set L) plus every index-store/backend/write-cache call (L+S); code between points runs atomically. states = distinct (observations, final tree) outcomes; transitions = scheduling steps executed; traces_validated_against_impl = complete schedules executed on the real code, each judged for completion (no deadlock), linearizability against the implementation's own sequential runs of every program-order-respecting permutation consistent with real-time order, and reproducibility of the final state from the tape."
+	rep.Coverage["point_sets"] = map[string]string{"L": "every Mutex.Lock, pipe read/write, goroutine spawn/exit", "L+S": "L plus every index-store, backend and write-cache call"}
+	rep.Coverage["rule"] = "stateless depth-first search over schedules of 2-3 client threads (+ background Restore goroutines) on one real fs.STFS, iterative preemption bounding; code between scheduling points runs atomically. Scenarios: the hand-written ones (S*) plus every unordered pair of calls from a 13-call alphabet, each call on its own thread (P*), plus parent-vs-child conflicts on an empty directory (Q*). states = distinct (observations, final tree) outcomes; transitions = scheduling steps executed; traces_validated_against_impl = complete schedules executed on the real code, each judged for completion (no deadlock), linearizability against the implementation's own sequential runs of every program-order-respecting permutation consistent with real-time order, and reproducibility of the final state from the tape."
 	rep.Assumptions = []string{"data races are NOT decided here (a cooperative scheduler serialises everything); see the separate free-running -race pass reported under race_pass", "SQLite and database/sql run unscheduled", "2-3 threads, 1-4 calls each, scenarios listed in explorations"}
 	racePass(rep)
 	return rep.Finish()
@@ -782,7 +801,7 @@ func runC11(rep *engines.Report, p *pool.Pool, tier string) int {
 // This pass samples schedules by nature; it exists because a cooperative scheduler's hand-offs are happens-before
 // edges that blind the race detector. It is reported separately and is not what the exhaustiveness claim rests on.
 func racePass(rep *engines.Report) {
-	bin := filepath.Join(verifDir(), ".build", "stfsmc-race")
+	bin := filepath.Join(buildDir(), "stfsmc-race")
 	if _, err := os.Stat(bin); err != nil {
 		rep.Coverage["race_pass"] = "not run: the -race binary is not built"
 		return
@@ -797,9 +816,12 @@ func racePass(rep *engines.Report) {
 		Races    int    `json:"races"`
 	}
 	results := []result{}
-	for _, scn := range engines.Scenarios() {
+	for si, scn := range engines.AllScenarios() {
 		if strings.HasPrefix(scn.Name, "S6") {
 			continue // deadlocks (known finding): nothing to sample
+		}
+		if rep.Tier == "quick" && !strings.HasPrefix(scn.Name, "S") && si%10 != 0 {
+			continue // quick: the hand-written scenarios and every tenth generated pair
 		}
 		cmd := exec.Command(bin, "racebody", scn.Name, iters)
 		cmd.Env = append(os.Environ(), "GOMAXPROCS=16", "GORACE=halt_on_error=0")
